@@ -259,6 +259,6 @@ func vpH_T_merge_concrete() {
 	vpReach("merge concrete end")
 }
 
-// merged statistics are the subject of C16; until its defect is repaired the
-// other merge harnesses do not compare them
-var vpSkipMergedStats = true
+// merged statistics are the subject of C16; its defect is repaired (see known_findings.json), so the
+// other merge harnesses compare them too
+var vpSkipMergedStats = false
